@@ -1,10 +1,11 @@
 --------------------------- MODULE MC_RuntimeDoc ---------------------------
 EXTENDS RuntimeDoc
-Classes == {"plain", "quotes", "backslash", "backquote", "percent", "atname", "unicode", "namefirst", "namedouble", "tagplus", "tagat"}
+Classes == {"plain", "quotes", "backslash", "backquote", "percent", "atname", "unicode", "namefirst", "namedouble", "tagplus", "tagat",
+            "colon", "goword"}       \* ordinary text shaped like a directive: "host:port ...", "go: ..." (a real directive has no space after //)
 MCDocPatterns == {<<>>} \cup {<<a>> : a \in Classes} \cup {<<a, b>> : a \in Classes, b \in Classes}
                  \cup {<<"plain", "blank", "unicode">>, <<"namefirst", "blank", "quotes">>, <<"plain", "blank", "tagplus">>, <<"tagat", "plain", "blank", "backslash">>}
-MCDocPatternsSmall == {<<>>} \cup {<<a>> : a \in Classes} \cup {<<"plain", "blank", "unicode">>, <<"tagplus", "namefirst">>, <<"quotes", "tagat", "percent">>}
-MCFieldDocPatterns == {<<>>, <<"plain">>, <<"quotes", "backquote">>, <<"tagplus", "percent">>, <<"plain", "blank", "atname">>, <<"backslash">>, <<"unicode", "tagat">>}
+MCDocPatternsSmall == {<<>>} \cup {<<a>> : a \in Classes} \cup {<<"plain", "blank", "unicode">>, <<"tagplus", "namefirst">>, <<"quotes", "tagat", "percent">>, <<"plain", "colon", "goword">>}
+MCFieldDocPatterns == {<<>>, <<"plain">>, <<"quotes", "backquote">>, <<"tagplus", "percent">>, <<"plain", "blank", "atname">>, <<"backslash">>, <<"unicode", "tagat">>, <<"colon">>, <<"plain", "goword">>}
 MCKinds == {"struct", "genericStruct", "scalar", "map", "slice", "func", "interface", "unexportedScalar"}
 MCFieldPatterns == {"one", "withUnexported", "anonStruct", "emptyNamed", "embedValue", "embedPointer", "embedDocumented", "noExported", "namedCovered", "two",
                     "namedIface", "namedGenericInst", "namedScalar"}      \* fields of a same-package interface / generic instantiation / named scalar
